@@ -950,6 +950,14 @@ class Machine:
 			gc.collect()
 
 	def quiescent(self, before, may_change, opname):
+		def _holds_vector_cells(o):
+			try:
+				cells = o._underlying
+			except Exception:
+				return False
+			if isinstance(o, Table):
+				return any(isinstance(c, Table) or any(isinstance(x, Vector) for x in c._underlying) for c in cells if isinstance(c, Vector))
+			return any(isinstance(x, Vector) for x in cells)
 		chk = self.chk
 		last = self.trace[-1] if self.trace else {}
 		refused_alias = "AliasError" in str(last.get("out", ""))
@@ -963,6 +971,11 @@ class Machine:
 			if new == old:
 				continue
 			if hid in may_change and not refused_alias:
+				continue
+			if _holds_vector_cells(h.obj):
+				# (a ragged `>>` result - a warning plus a NON-table vector whose cells are the operands themselves - or any other vector holding vectors as cells shows
+				# what its cells show: vectors as cells are outside every domain, DESIGN section 6)
+				chk.skip("bystander-holds-vectors-as-cells")
 				continue
 			w = hmap.get(writer)
 			rel = relation(hmap, w, h) if w is not None else "unknown"
